@@ -1,5 +1,6 @@
 import Sebuf.Driver
 import Sebuf.Traverse
+import Sebuf.Gen.Recursion
 namespace Sebuf.Driver
 open Lean (Json)
 
@@ -12,7 +13,10 @@ def opMockGraph (j : Json) : Json :=
   -- the fuel-bounded replay of the recursion is itself exponential on DAG-shaped graphs: only run it
   -- when the unfolded size is small; a saturated estimate on an acyclic graph is reported as work
   let small := (roots.map fun r => mockWork g (2 ^ 22) r).all (· < 2 ^ 22)
-  let div := if small then roots.any fun r => mockAssign g fuel r == Outcome.outOfFuel else false
+  -- the recursion the mock emitter has NOW, read off the regenerated fact: with a path guard it finishes on every graph
+  let mockGuarded := Gen.Recursion.sites.any fun t => t.1 == "internal/httpgen.generateMockFieldAssignments" && t.2.2.1
+  let div := if mockGuarded then false
+    else if small then roots.any fun r => mockAssign g fuel r == Outcome.outOfFuel else false
   let cap := 2 ^ 40
   let work := (roots.map fun r => mockWork g cap r).foldl max 0
   Json.mkObj [("mock_diverges", Json.bool div), ("mock_work", Json.num (Lean.JsonNumber.fromNat work)),
